@@ -198,7 +198,11 @@ func vkCrashHistory(c *vkit.Ctx, side *vkCrashSide, h vkCHist, power bool, count
 		case bytes.Equal(local, newLocal):
 			label = "new"
 		default:
-			return "partial", fmt.Sprintf("%s: the persisted list is %q — neither the previous complete file %q nor the complete new file %q", img.Desc, local, prevLocal, newLocal)
+			prevDesc := "(none existed)"
+			if prevExists {
+				prevDesc = fmt.Sprintf("%q", prevLocal)
+			}
+			return "partial", fmt.Sprintf("%s: the persisted list is %q — neither the previous complete file %s nor the complete new file %q", img.Desc, local, prevDesc, newLocal)
 		}
 		if count {
 			c.Outcome("crash:local=" + label)
